@@ -271,9 +271,18 @@ def pointStepOld (c : Cfg) (flap : FlapFn) (s : St) (p : Pt) : St × Option Ev :
     else (s, some { level := l, time := p.t, dur := duration s })
   else (s, none)
 
-/-- `restoreEventState(id, t, tags)`: `t` = time of the group's first message; `(level, stored)` = what `restoreEvent`
-found in the topic. -/
-def restoreEventState (c : Cfg) (flap : FlapFn) (t : Int) (level : Nat) (stored : Int) : St :=
+/-- `restoreEventState(id, t, tags)`: `t` = time of the group's first message; `(level, stored, dur)` = level, time and
+duration of the event state `restoreEvent` found in the topic (as repaired by the second `fix:` commit of
+findings/C01.txt: the alert left OK `dur` before the stored event). -/
+def restoreEventState (c : Cfg) (flap : FlapFn) (t : Int) (level : Nat) (stored dur : Int) : St :=
+  let s := newAlertState c
+  if level != 0 then
+    let s := triggered (addEvent c flap s t level) stored
+    { s with firstTriggered := some (stored - dur) }
+  else s
+
+/-- … and as it was before: the duration restarted at the stored event's time. -/
+def restoreEventStateOld (c : Cfg) (flap : FlapFn) (t : Int) (level : Nat) (stored : Int) : St :=
   let s := newAlertState c
   if level != 0 then triggered (addEvent c flap s t level) stored else s
 
